@@ -128,20 +128,30 @@ Inst == {"first", "last"}
 \* truncBefore/Inside: the whole encoding ends at / inside the field.  cutBefore/Inside: the structure
 \* enclosing the field (record, block, member) ends there and its length fields agree with that.
 Trunc == {"truncBefore", "truncInside", "cutBefore", "cutInside"}
-IntMuts == {"neg", "zero", "one", "big", "max", "umax", "plus1", "minus1"}
+\* (eight: a count equal to the size of the fixed part of an array field - with element "width" -1 the
+\* field length comes out as zero; nul: a zero byte where text is expected; asZ/asB: a type letter of
+\* another family in place of this one)
+IntMuts == {"neg", "zero", "one", "eight", "big", "max", "umax", "plus1", "minus1"}
 Muts(k) == CASE k = "magic" -> Trunc \cup {"flipBit"}
              [] k = "int" -> Trunc \cup {"flipBit", "neg", "zero", "max", "umax"}
              [] k \in {"count", "len"} -> Trunc \cup {"flipBit"} \cup IntMuts
              [] k \in {"itf", "ltf"} -> Trunc \cup {"flipBit", "neg", "zero", "max"}
-             [] k = "icount" -> Trunc \cup {"flipBit", "neg", "zero", "one", "big", "max"}
-             [] k = "bytes" -> Trunc \cup {"flipBit", "empty", "short1", "splice", "long"}
-             [] k = "nul" -> Trunc \cup {"flipBit", "empty", "short1", "noNul", "splice", "long"}
-             [] k = "col" -> Trunc \cup {"flipBit", "empty", "short1", "short2", "unknownLetter", "splice", "long"}
+             [] k = "icount" -> Trunc \cup {"flipBit", "neg", "zero", "one", "eight", "big", "max"}
+             [] k = "bytes" -> Trunc \cup {"flipBit", "empty", "short1", "splice", "long", "nul"}
+             [] k = "nul" -> Trunc \cup {"flipBit", "empty", "short1", "noNul", "splice", "long", "nul"}
+             [] k = "col" -> Trunc \cup {"flipBit", "empty", "short1", "short2", "unknownLetter", "splice", "long", "nul"}
              [] k = "num" -> Trunc \cup {"empty", "badDigit", "hugeNum", "negNum", "short1", "long"}
              [] k = "sep" -> {"truncBefore", "cutBefore", "dropSep", "dupSep"}
-             [] k = "tag" -> Trunc \cup {"flipBit", "empty", "short1", "unknownLetter", "long"}
+             [] k = "tag" -> Trunc \cup {"flipBit", "empty", "short1", "unknownLetter", "long", "nul", "asZ", "asB"}
 CasesOf(d) == UNION {{[dec |-> d, field |-> f, inst |-> n, mut |-> m] : n \in Inst, m \in Muts(Schema[d][f])} : f \in DOMAIN Schema[d]}
 IsCase(d, f, n, m) == d \in Decs /\ f \in DOMAIN Schema[d] /\ n \in Inst /\ m \in Muts(Schema[d][f])
+\* pairs of cases that are always run together with the single cases (the thorough tier adds seeded pairs):
+\* a type letter of another family together with each small count
+DirectedPairs(d) ==
+    {<<a, b>> \in CasesOf(d) \X CasesOf(d) :
+        /\ Schema[d][a.field] = "tag" /\ a.mut \in {"asZ", "asB", "unknownLetter"}
+        /\ Schema[d][b.field] \in {"count", "icount"} /\ b.mut \in {"eight", "zero", "one", "neg"}
+        /\ a.inst = b.inst}
 \* the property: what a decoder (followed by the accessor battery) may do with a case's input
 Total(outcome) == outcome \in {"value", "error"}
 \* outcomes that are recorded but not judged: the mutation did not change the specimen; the
